@@ -450,8 +450,15 @@ func (la *lockAnalysis) flow(fn *ssa.Function) *LockFlow {
 
 func paramIndex(fn *ssa.Function, key string) int {
 	for i, p := range fn.Params {
-		if paramCanon(p) == key {
+		pc := paramCanon(p)
+		if pc == key {
 			return i
+		}
+		// an element of a key-slice parameter ([]string): the requirement is on the whole slice argument
+		if sl, ok := p.Type().Underlying().(*types.Slice); ok && strings.HasPrefix(key, pc+"[") {
+			if bt, ok := sl.Elem().Underlying().(*types.Basic); ok && bt.Info()&types.IsString != 0 {
+				return i
+			}
 		}
 	}
 	return -1
@@ -614,11 +621,19 @@ func advisoryGet(in ssa.Instruction) bool {
 				}
 			case *ssa.DebugRef:
 			default:
+				if isBoolType(ex.Type()) {
+					continue // one bit (present / absent) leaves the read, never the stored value
+				}
 				return false
 			}
 		}
 	}
 	return true
+}
+
+func isBoolType(t types.Type) bool {
+	b, ok := t.Underlying().(*types.Basic)
+	return ok && b.Kind() == types.Bool
 }
 
 // runLockset performs R15 over package memdb.
@@ -641,6 +656,9 @@ func (la *lockAnalysis) run(rule string) {
 				ok, _ := la.check(s)
 				if ok {
 					continue
+				}
+				if s.Kind == "keyspace" && !s.Write && advisoryGet(s.In) {
+					continue // an existence/type probe: no requirement on the callers (reported as advisory below)
 				}
 				if pi := paramIndex(fn, s.Key); pi >= 0 {
 					what := "R"
@@ -667,6 +685,11 @@ func (la *lockAnalysis) run(rule string) {
 	for _, fn := range la.fns {
 		for _, s := range la.sites(fn) {
 			ok, detail := la.check(s)
+			if !ok && s.Kind == "keyspace" && !s.Write && advisoryGet(s.In) {
+				c.Add(rule, fnName(fn), s.Construct, s.In.Pos(), true, "advisory pre-check: result used only in a type/existence test (the read itself is atomic inside ConcurrentMap)")
+				nsites++
+				continue
+			}
 			if !ok && !execs[fn] && fn.Parent() == nil && paramIndex(fn, s.Key) >= 0 {
 				// discharged as a requirement on callers (checked at every call site)
 				c.Add(rule, fnName(fn), s.Construct, s.In.Pos(), true, "precondition on callers: "+detail)
